@@ -62,7 +62,7 @@ class UndecidedValue(GenericValue):
 
             if not isinstance(obj, Unmanaged) and node is not None:
                 new_token = value_to_token(obj)
-                if self._file._token_of_node(node) != new_token:
+                if not self._file._same_tokens(node, new_token):
                     new_code = self._file._token_to_code(new_token)
 
                     yield Replace(
